@@ -702,7 +702,49 @@ def r07_14(ctx: Ctx, rule: str = "R07.14") -> None:
     ctx.floor(rule, n, 3, "handle/worker resets outside the constructor")
 
 
+def r07_17(ctx: Ctx, rule: str = "R07.17") -> None:
+    """three places where what is written would not be the archive a strict reader expects: (a) a file object opened for APPENDING puts every write
+    at the end of the file whatever seek() said - the start header can never be written at offset 0 - so the constructor refuses such a handle for
+    a write session; (b) when the header an archive had at open is written back (the session could not be completed), the handle is first put
+    right behind the packed data that header describes: written at the current position it would lie behind everything the session wrote, with
+    unreferenced bytes between the packed streams and the header; (c) writestr/writef store the name with '/' for every backslash, as write()
+    does and as every reader lists it (docs/archive_format.rst: the separator SHALL be '/')."""
+    init = shared.szf(ctx, "__init__")
+    refuses = [r for r in walk(init.node) if isinstance(r, ast.Raise) and any(
+        pol and isinstance(cd, ast.Compare) and isinstance(cd.ops[0], ast.In) and isinstance(cd.left, ast.Constant) and cd.left.value == "a" and "mode" in norm(cd.comparators[0])
+        and "file" in norm(cd.comparators[0]) for cd, pol in q.facts_at(init, r))]
+    ctx.check(bool(refuses), rule, init, init.node, "a handle opened for appending is refused for a write session",
+              "the constructor accepts a file object opened with 'a'/'a+b' for modes 'w', 'x', 'a': the operating system appends every write, the start header written by close() lands at "
+              "the end of the file - mode 'w' leaves the placeholder (no archive), mode 'a' the old archive plus garbage, and no error is raised", construct="O_APPEND handle accepted")
+    wf = shared.szf(ctx, "_write_flush")
+    cfg = cfg_of(wf.node)
+    swaps = [n for n in walk(wf.node) if isinstance(n, ast.Assign) and norm(n.targets[0]) == "self.header" and norm(n.value) == "self._header_at_open"]
+    ctx.floor(rule, len(swaps), 1, "write-back of the header at open in _write_flush")
+    for sw in swaps:
+        sn = q.node_for(wf, sw)
+        whs = [c for c in q.calls(wf) if attr_tail(c) == "_write_header" and cfg.dominates(sn, q.node_for(wf, c))]
+        seeks = [c for c in q.calls(wf) if attr_tail(c) == "seek" and norm(c.func.value) == "self.fp" and c.args and
+                 ("packpositions" in norm(q.expand_locals(wf, c.args[0])) or "_packed_start" in norm(q.expand_locals(wf, c.args[0])) or
+                  q.derives_from(wf, c.args[0], lambda x: isinstance(x, ast.Attribute) and x.attr == "packpositions", depth=4))]
+        for wh in whs:
+            ok = any(cfg.dominates(sn, q.node_for(wf, s_)) and cfg.dominates(q.node_for(wf, s_), q.node_for(wf, wh)) for s_ in seeks)
+            ctx.check(ok, rule, wf, wh, "the restored header is written right behind the packed data it describes",
+                      "the header the archive had at open is written back at the handle's current position, behind everything the broken session wrote: the restored archive carries "
+                      "the session's bytes as an unreferenced gap between its packed streams and its header (432 bytes become 1 MiB), the packed sizes no longer tile the data area",
+                      construct="restored header position")
+    mk = shared.szf(ctx, "_make_file_info_from_name")
+    sets = [n for n in walk(mk.node) if isinstance(n, ast.Assign) and isinstance(n.targets[0], ast.Subscript) and isinstance(n.targets[0].slice, ast.Constant) and n.targets[0].slice.value == "filename"]
+    ctx.floor(rule, len(sets), 1, "name assignment in _make_file_info_from_name")
+    for n in sets:
+        ok = any(isinstance(x, ast.Call) and attr_tail(x) == "replace" and len(x.args) == 2 and isinstance(x.args[0], ast.Constant) and x.args[0].value == "\\"
+                 and isinstance(x.args[1], ast.Constant) and x.args[1].value == "/" for x in ast.walk(q.expand_locals(mk, n.value)))
+        ctx.check(ok, rule, mk, n, "writestr/writef store '/' for every backslash of the name",
+                  "_make_file_info_from_name stores the name with its backslashes: writestr(data, 'd2\\f2') writes a member that py7zr lists as 'd2/f2' and every strict reader as the "
+                  "single component 'd2\\f2' (write() stores 'd2/f2'; the gate already judges the name with '/')", construct="backslash stored by writestr")
+
+
 def run(ctx: Ctx) -> None:
+    r07_17(ctx)
     from . import c16 as _c16
     _c16.r16_8(ctx, rule="R07.15")  # a NUL in a name breaks the Names record
     r07_14(ctx)
